@@ -25,7 +25,7 @@ ID = 'C18'
 LEVEL = 'fault_enumeration'
 DECIDING = ['offsets_enumerated', 'reads_raised', 'reads_returned_prefix', 'writer_selfcheck_ok', 'archive_offsets_enumerated',
             'cuts_exactly_at_a_record_boundary', 'cuts_in_a_later_file_after_complete_first_file', 'recovery_reads']
-RULE = ('crash points: a file of a small synthetic file set (2 replicas, 5-7 configurations; rwms 1.4/1.6/2.0, ms.dat energy density / '
+RULE = ('crash points: a file of a small synthetic file set (2 replicas, 6-9 configurations; rwms 1.4/1.6/2.0, pbp, ms.dat energy density / '
         'plaquette / Qtop, gfms Qtop Wilson+Zeuthen / GF coupling, ms5_xsf, sfcf o/c/a, Hadrons hdf5) or an exported archive (json, dobs, pobs, csv; '
         'gz and plain) is cut at byte k; thorough enumerates every k in 0..len-1 of every file of every generated set (counter '
         'offsets_enumerated; files_fully_enumerated counts the files), quick every record/field boundary +-1 and ~200 seeded random offsets per file; '
@@ -154,6 +154,19 @@ def variants_rwms(S, d, rng):
     return v
 
 
+def variants_pbp(S, d, rng):
+    """read_pbp numbers the measurements by position; r_stop = n keeps the first n of what is there."""
+    v = [('read_pbp', lambda: S.read(d), lambda nrec: S.expect_positional(nrec=nrec), R.judge_list),
+         ('print_err', lambda: S.read(d, print_err=True), lambda nrec: S.expect_positional(nrec=nrec), R.judge_list)]
+    n = min(len(S.traj[r]) for r in S.reps)
+    if n >= 7:
+        def e_stop(nrec):
+            nr = {r: min(n - 1, nrec.get(r) if nrec.get(r) is not None else len(S.traj[r])) for r in S.reps}
+            return S.expect_positional(nrec=nr)
+        v.append(('r_stop', lambda: S.read(d, r_stop=[n - 1] * len(S.reps)), e_stop, R.judge_list))
+    return v
+
+
 def variants_msdat(S, d, rng):
     oq = PE.input.openQCD
     xmin = 0
@@ -249,6 +262,7 @@ BINARY = {
     'ms.dat': (lambda rng, tier: R.MsdatSet(rng, tier, small=True), variants_msdat),
     'gfms': (lambda rng, tier: R.GfmsSet(rng, tier, small=True, coupling=True), variants_gfms),
     'ms5_xsf': (lambda rng, tier: R.Ms5Set(rng, tier, small=True), variants_ms5),
+    'pbp': (lambda rng, tier: R.PbpSet(rng, tier, small=True), variants_pbp),
 }
 
 
@@ -762,10 +776,10 @@ def case_archive(ctx, kind, idx, rng):
 # ------------------------------------------------------------------------------------------------
 def plan(tier):
     if tier == 'quick':
-        s = {'rwms-1.4': 2, 'rwms-1.6': 2, 'rwms-2.0': 2, 'ms.dat': 2, 'gfms': 1, 'ms5_xsf': 2, 'sfcf_o': 1, 'sfcf_c': 1, 'sfcf_a': 1, 'hadrons': 1}
+        s = {'rwms-1.4': 2, 'rwms-1.6': 2, 'rwms-2.0': 2, 'ms.dat': 2, 'gfms': 1, 'ms5_xsf': 2, 'pbp': 1, 'sfcf_o': 1, 'sfcf_c': 1, 'sfcf_a': 1, 'hadrons': 1}
         a = 1
     else:
-        s = {'rwms-1.4': 4, 'rwms-1.6': 4, 'rwms-2.0': 4, 'ms.dat': 5, 'gfms': 2, 'ms5_xsf': 3, 'sfcf_o': 2, 'sfcf_c': 2, 'sfcf_a': 3, 'hadrons': 2}
+        s = {'rwms-1.4': 4, 'rwms-1.6': 4, 'rwms-2.0': 4, 'ms.dat': 5, 'gfms': 2, 'ms5_xsf': 3, 'pbp': 3, 'sfcf_o': 2, 'sfcf_c': 2, 'sfcf_a': 3, 'hadrons': 2}
         a = 3
     p = [(k, n * PARTS) for k, n in s.items()]
     p += [('archive:' + x, a * PARTS) for x in ARCHIVES]
